@@ -22,6 +22,14 @@ CHECKS = {
             'unknown sub-item types, several syntaxes/PDVs) are decoded by the library and compared.',
             'Trusts vf/refpdu.py (about 300 lines transcribed from PS3.8 9.3 / PS3.7 Annex D, with a '
             'self-test); AE titles compared modulo padding.', 'refpdu', 'DESIGN.md#C02'),
+    'C04': (True, 'exploration',
+            'exhaustive cell enumeration (13 states x 19 events x role x timer x slot variants) against a transcribed Table 9-10 + Hypothesis PDU contents',
+            'Every one of the 247 cells is executed on a real provider object (state set directly, no thread) '
+            'for both roles, both ARTIM pre-states and every applicable primitive variant; wire bytes (parsed by '
+            'the reference codec), indications, transport close/connect, ARTIM effect and next state are compared '
+            'with an executable transcription of PS3.8 Table 9-10; undefined cells must have no effect.',
+            'Trusts vf/ulmodel.py (table + actions transcribed from PS3.8 9.2). AA-4 indication object not '
+            'constrained; AE-6 only in its "acceptable" branch.', 'ulmodel', 'DESIGN.md#C04'),
     'C06': (True, 'exploration',
             'exhaustive (max PDU length x boundary data length) grid + Hypothesis; fragment-stream invariants and byte-exact concatenation oracle',
             'Every maximum PDU length 7..70 (thorough 7..300) x every data length within +-2 of a multiple of the '
@@ -107,6 +115,10 @@ def main():
 ENGINES = [
     {'name': 'refpdu', 'path': 'vf/refpdu.py', 'serves_properties': ['C02', 'C03', 'C04', 'C05', 'C09', 'C10', 'C11', 'C12', 'C13', 'C14'],
      'kind_free_text': 'independent strict PDU reference encoder/parser (PS3.8 9.3, PS3.7 Annex D)'},
+    {'name': 'simnet', 'path': 'vf/simnet.py', 'serves_properties': ['C03', 'C04', 'C05', 'C12', 'C13'],
+     'kind_free_text': 'real DULServiceProvider.run() executed in the calling thread against simulated socket/select/clock/user queue; scripted scenarios'},
+    {'name': 'ulmodel', 'path': 'vf/ulmodel.py', 'serves_properties': ['C04', 'C05', 'C12', 'C13'],
+     'kind_free_text': 'executable PS3.8 Table 9-10 protocol machine (123 cells, 28 actions) with ARTIM, transport and reassembly tracking'},
     {'name': 'refcmd', 'path': 'vf/refcmd.py', 'serves_properties': ['C06', 'C07', 'C08', 'C16', 'C17', 'C19'],
      'kind_free_text': 'independent implicit-VR-LE command-set reader/writer and PS3.7 message table; vf/dimsegen.py builds messages and reference fragments'},
     {'name': 'pdugen', 'path': 'vf/pdugen.py', 'serves_properties': ['C01', 'C02', 'C04', 'C05', 'C12'],
